@@ -9,7 +9,7 @@ def main(tier):
     c.run_family('plain', 'c06.py', 'flat', per_case_timeout=60, chunk=20, nsamples=2)
     if not quick:
         c.build('asan', ['lcx'])
-        c.run_family('asan', 'c06.py', 'flat', per_case_timeout=120, chunk=20, nsamples=1)
+        c.run_family('asan', 'c06.py', 'flat', args=['--skip-libunits=lib-mm-via-um'], per_case_timeout=150, chunk=20, nsamples=1)
     return c.finish(
         rule='the full product of import structure {leaf, encapsulated child, child that is itself an import, import of an import, grandchild} x instances {one, the same component twice} x '
              'library units {metre, library mm, mm defined through another library units, mm used only in a cn} x units-name clash {none, same name same definition, same name different definition, '
@@ -20,5 +20,5 @@ def main(tier):
             'ground truth: every library component computes y = 2x + 1 (through its child where present) in its own units; connected variables are converted with the ratio of the SI scales of their units',
             'only r_k = b_k + 0 is compared (a class of its own); classes merged with library variables are expressed in units the analyser chooses',
             'all input files validate on their own, so the flat model must validate with zero issues',
-            'thorough repeats the family under ASan+UBSan (memory safety of flattening), quick runs the plain build',
+            'thorough repeats the family under ASan+UBSan (memory safety of flattening) except the libunits=lib-mm-via-um quarter, whose clash cases hit the open unbounded-recursion finding and take minutes each under ASan; quick runs the plain build',
         ])
